@@ -218,6 +218,28 @@ def runOp (g : String) (a : Args) : Option String := do
   | "divconst" => do
     let r ← a.nat? "res"; let (x, y) ← a.var2? "args"
     some (outStr (gDivConst r x y B))
+  | "rangectx" => do
+    let lb ← a.bound? "lb"; let ub ← a.bound? "ub"
+    some ("ctx " ++ (rangeCtx lb ub).toString)
+  | "propquadfixed" => do  -- the proposed repair
+    let q ← a.quad? "quad"; let cx ← a.ctx?
+    some ("ctx " ++ " ".intercalate ((propQuadFixed B cx q).map fun (v, c) => s!"{v}:{c.toString}"))
+  | "propfun" => do   -- PropagateResult(<functional constraint>&, ..., ctx): contexts handed to the arguments
+    let cx ← a.ctx?
+    let ty ← a.get? "type"
+    let fmt := fun (l : List (Var × Ctx)) => "ctx " ++ " ".intercalate (l.map fun (v, c) => s!"{v}:{c.toString}")
+    match ty with
+    | "Not" => do let x ← a.var1? "args"; some (fmt (propNot cx x))
+    | "And" => do let xs ← a.vars? "args"; some (fmt (propAnd cx xs))
+    | "Or" => do let xs ← a.vars? "args"; some (fmt (propOr cx xs))
+    | "Impl" => do let (c, t, e) ← a.var3? "args"; some (fmt (propImpl cx c t e))
+    | "IfThen" => do let (c, t, e) ← a.var3? "args"; some (fmt (propIfThen B cx c t e))
+    | "Affine" => do let body ← a.lin? "lin"; some (fmt (propLFC cx body))
+    | "CondLin" => do
+      let k ← a.get? "kind" >>= parseCmp5?; let body ← a.lin? "lin"
+      some (fmt (propCondLin k cx body))
+    | "Default" => do let xs ← a.vars? "args"; some (fmt (propDefault xs))
+    | _ => none
   | "proplin" => do   -- PropagateResult2LinTerms
     let body ← a.lin? "lin"; let cx ← a.ctx?
     some ("ctx " ++ " ".intercalate ((propLin cx body).map fun (v, c) => s!"{v}:{c.toString}"))
